@@ -266,7 +266,7 @@ ROUND6 = {
  "C01": ("; name agreement of same-typed positional arguments over all calls", "Round 6: both counts of the print gate are taken inside the coordinator loop (R1.2 clause); journal entries carry the receive time in every rendering (R1.6 <- C09 R9.11); no call passes two same-typed named arguments in each other's place (R1.8)."),
  "C02": ("", "Round 6: a message is kept after a block-bounded Done only on the end-of-file side of the end-of-file test (R2.9 clause)."),
  "C03": ("", "Round 6: equal bounds are a valid window and relative bounds keep their base (R3.10 <- C14 R14.3/R14.5); every reader converts bounds and record times without losing the instant (R3.12); R3.9 follows the modification time through date arithmetic; R3.2 tolerates a second predicate use that cannot affect messages inside the window."),
- "C04": ("", "Round 6: the decision to re-parse the stage-1 messages uses the pattern count taken before the pattern analysis (R4.15); zone values reach the readers under their own parameter (R4.16); within a notation the full-offset rows accept every month spelling of the hour-only row (R4.17); a start-anchored row with a zone group searches at least as far as its own longest match (R4.18); a month group with dotted abbreviations has them for every month (R4.19)."),
+ "C04": ("", "Round 6: the decision to re-parse the stage-1 messages uses the pattern count taken before the pattern analysis (R4.15); zone values reach the readers under their own parameter (R4.16); within a notation the full-offset rows accept every month spelling of the hour-only row (R4.17); a start-anchored row searches at least as far as its own longest match (R4.18); a month group with dotted abbreviations has them for every month (R4.19)."),
  "C05": ("", "Round 6: a buffered writer over the unpacked temporary file is flushed, and the result looked at, before success is reported (R5.15; lifted by C09 R9.6 and C10 R10.6); the composite archive|member name is split at its last separator (R5.16); BlockReader::filesz() returns the decoded size for every decoded container, for text and record files alike (R5.17)."),
  "C06": ("; effect analysis of every loop and iterator chain over a randomly seeded HashMap/HashSet", "Round 6: no output and no choice depends on the iteration order of a randomly seeded hash container (R6.12, whole program)."),
  "C07": ("", "Round 6: Summary accessors that panic on the Dummy placeholder are called only behind a failed is_dummy() test (R7.15); the emergency counter of the journal field enumeration is incremented on every way round the loop (R7.16); allocation sizes are followed through max() and back to numbers decoded from the file's own bytes (R7.10); path expansion never unwraps the result of opening a file (R7.17)."),
